@@ -33,14 +33,14 @@ type dyn struct {
 	podCtl *provisioning.PodController
 	w      *watches
 
-	limits   map[string]v1.Limits // pool -> limits (fixed for the whole history)
-	passOf   map[string]int       // NodeClaim name -> provisioning pass that created it
-	pass     int
-	trace    []string
-	backlog  map[world.Request]bool
-	caseDesc map[string]any
-	reported map[string]bool
-	sig      map[string]bool
+	limits     map[string]v1.Limits // pool -> limits (fixed for the whole history)
+	passOf     map[string]int       // NodeClaim name -> provisioning pass that created it
+	pass       int
+	trace      []string
+	backlog    map[world.Request]bool
+	caseDesc   map[string]any
+	reported   map[string]bool
+	sig        map[string]bool
 	nontrivial bool
 }
 
@@ -60,12 +60,12 @@ func registered(nc *v1.NodeClaim) bool {
 }
 
 type claimUse struct {
-	Name       string
-	Pass       int
-	Type       string
-	Source     string // node | instance
-	Capacity   map[string]string
-	capacity   corev1.ResourceList
+	Name     string
+	Pass     int
+	Type     string
+	Source   string // node | instance
+	Capacity map[string]string
+	capacity corev1.ResourceList
 }
 
 // usage computes, from API + provider ground truth only, what every limited pool currently holds in launched,
